@@ -19,3 +19,16 @@ Theorem C18_import_denotes : forall W, (2 <= W)%nat -> forall chunk, (forall b, 
   forall hash t, tame t -> forall b sz, import W chunk hash t = Ok (b, sz) -> denotes t b.
 Proof. exact import_denotes. Qed.
 Print Assumptions C18_import_denotes.
+
+(* ---- directories of every size ---- *)
+From UV Require Import Build.FsImportSharded Base.Varint.
+
+(* for EVERY tree of files (< 2^63 bytes), directories with distinct non-empty names (plain below the auto-shard
+   threshold, HAMT-sharded with fanout 256 above it) and symlinks, and every 8-byte name hash: the node Reify's
+   type dispatch presents for each directory reports exactly the on-disk entry count and resolves every on-disk
+   name to the import of that child; files denote their bytes, symlinks their target text *)
+Theorem C18_import_denotes_all_directories : forall W, (2 <= W)%nat -> forall chunk, (forall b, concat (chunk b) = b) ->
+  forall hash, (forall k, wf_bytes (hash k) = true) -> (forall k, length (hash k) = 8%nat) ->
+  forall t, tame2 t -> forall b sz, import W chunk hash t = Ok (b, sz) -> denotes2 hash t b.
+Proof. exact import_denotes2. Qed.
+Print Assumptions C18_import_denotes_all_directories.
